@@ -261,6 +261,14 @@ func (ws *priorityWriteScheduler) OpenStream(streamID uint32, options OpenStream
 			panic(fmt.Sprintf("stream %d already opened", streamID))
 		}
 		curr.state = priorityNodeOpen
+		// The node is no longer idle: take it off the idle list, otherwise
+		// addClosedOrIdleNode would later evict (removeNode) an open stream.
+		for i, n := range ws.idleNodes {
+			if n == curr {
+				ws.idleNodes = append(ws.idleNodes[:i], ws.idleNodes[i+1:]...)
+				break
+			}
+		}
 		return
 	}
 
